@@ -49,12 +49,31 @@ def identPerm (o : Opts) (nodes : List Json) : Bool :=
     objs.any (fun x => objs.any (fun y =>
       identObj o x == identObj o y && !(equivB o (proj x) (proj y))))
 
+/-- class of KF-C01-keytwin (v2): some array holds two object members with DIFFERENT identities whose
+    path objects coincide — one lacks a set key for which the other holds null (`newPathSetKeys` writes
+    null for an absent key), so a hunk addressed to one of them can land in the other -/
+def keyTwin (o : Opts) (nodes : List Json) : Bool :=
+  match keysOf o with
+  | none => false
+  | some _ =>
+    let pathObj (kvs : List (String × Json)) : Json :=
+      match newPathSetKeys o kvs with
+      | .setKeys po => .obj po
+      | _ => .obj kvs
+    nodes.any (fun n => match n with
+      | .arr _ xs =>
+        let objs := xs.filterMap (fun n => match n with | .obj kvs => some kvs | _ => none)
+        objs.any (fun x => objs.any (fun y =>
+          identObj o x != identObj o y && equivB o (pathObj x) (pathObj y)))
+      | _ => false)
+
 /-- C01 oracle on the implementation's outputs: the patch succeeded and its result is equivalent
     to `b` (model `equals` and the hash-free spec `equivB`). `implEq` is the implementation's own
     verdict `r.Equals(b, opts)`. -/
 def oracleC01 (o : Opts) (a b : Json) (implEq : Bool) (out : Outcome Json) : String :=
   let bad (why : String) : String :=
-    if identPerm o (subterms a ++ subterms b) then "kf KF-C01-identperm " ++ why
+    if keyTwin o (subterms a ++ subterms b) then "kf KF-C01-keytwin " ++ why
+    else if identPerm o (subterms a ++ subterms b) then "kf KF-C01-identperm " ++ why
     else if !(aliasFree o (subterms a ++ subterms b)) then "kf KF-C04-alias " ++ why
     else "fail " ++ why
   match out with
@@ -82,7 +101,8 @@ def hasPrecisionPair (o : Opts) (a b : Json) : Bool :=
 def oracleC04 (o : Opts) (a b : Json) (implEq implEqRev implRefl : Bool) : String :=
   let spec := equivB o a b
   let cls (why : String) : String :=
-    if identPerm o (subterms a ++ subterms b) then "kf KF-C01-identperm " ++ why
+    if keyTwin o (subterms a ++ subterms b) then "kf KF-C01-keytwin " ++ why
+    else if identPerm o (subterms a ++ subterms b) then "kf KF-C01-identperm " ++ why
     else if setMode o && (hasNegZero a || hasNegZero b) && equivB o a b && !implEq then "kf KF-C04-negzero " ++ why
     else if !(aliasFree o (subterms a ++ subterms b)) then "kf KF-C04-alias " ++ why
     else "fail " ++ why
@@ -96,7 +116,8 @@ def oracleC05 (o : Opts) (a b : Json) (diffEmpty implEq : Bool) : String :=
   if diffEmpty == implEq then "ok"
   else
     let why := s!"diff empty={diffEmpty} but Equals={implEq}"
-    if identPerm o (subterms a ++ subterms b) then "kf KF-C01-identperm " ++ why
+    if keyTwin o (subterms a ++ subterms b) then "kf KF-C01-keytwin " ++ why
+    else if identPerm o (subterms a ++ subterms b) then "kf KF-C01-identperm " ++ why
     else if hasPrecisionPair o a b then "kf KF-C05-precision " ++ why
     else if (hasNegZero a || hasNegZero b) then "kf KF-C05-negzero " ++ why
     else if !(aliasFree o (subterms a ++ subterms b)) then "kf KF-C04-alias " ++ why
@@ -126,10 +147,13 @@ def oracleC08 (c : Json) (d : Diff) (impl : Outcome Json) : String :=
   if res == "ok" then res
   else
     -- class of KF-C08-swallow: the code reports success although a keyed member's nested patch failed
+    let nodes := subterms c ++ d.flatMap (fun h => (h.remove ++ h.add).flatMap subterms)
+    let ks : List String := (d.flatMap (fun h => h.path.flatMap (fun e => match e with
+      | .setKeys po => po.map (·.1) | _ => []))).eraseDups
+    if !ks.isEmpty && keyTwin [.set, .setKeys ks] nodes then "kf KF-C01-keytwin " ++ res else
     match patchAll true c d, patchAll false c d with
     | .ok _, .err => "kf KF-C08-swallow " ++ res
     | _, _ =>
-      let nodes := subterms c ++ d.flatMap (fun h => (h.remove ++ h.add).flatMap subterms)
       if !(aliasFree o nodes) then "kf KF-C04-alias " ++ res
       else if nodes.any hasNegZero then "kf KF-C04-negzero " ++ res
       else res
@@ -194,7 +218,8 @@ partial def getAt (o : Opts) (n : Json) : Path → Option Json
 /-- C07: per-hunk facts and leave-one-out results (computed by the implementation) -/
 def oracleC07 (o : Opts) (a b : Json) (d : Diff) (loo : List (Outcome Json)) : String :=
   let cls (why : String) : String :=
-    if identPerm o (subterms a ++ subterms b) then "kf KF-C01-identperm " ++ why
+    if keyTwin o (subterms a ++ subterms b) then "kf KF-C01-keytwin " ++ why
+    else if identPerm o (subterms a ++ subterms b) then "kf KF-C01-identperm " ++ why
     else if !(aliasFree o (subterms a ++ subterms b)) then "kf KF-C04-alias " ++ why
     else if hasNegZero a || hasNegZero b then "kf KF-C05-negzero " ++ why
     else if hasPrecisionPair o a b then "kf KF-C05-precision " ++ why
